@@ -139,7 +139,7 @@ def judge(chk, label, lines, zones_wanted, impl_pieces, work, start, until, note
 
 
 # ------------------------------------------------------------------ program generation (small sources over the documented grammar)
-STDOFFS = ['-8:00', '-3:30', '0:00', '5:45', '12:45', '1:00']
+STDOFFS = ['-8:00', '-3:30', '0:00', '5:45', '12:45', '1:00', '5:40', '-3:40']   # the last two are truncated (and noted) in basic scope
 ATS = ['0:00', '2:00', '2:00s', '1:00u', '24:00', '3:00']
 SAVES = ['0', '1:00', '0:30', '2:00']
 ONS = ['1', '15', 'lastSun', 'Sun>=1', 'Sun>=8', 'Sun>=15', 'lastSat', 'Fri>=22', 'Sat>=1']   # forms zic can also express in its POSIX-TZ footer (needed beyond 2037)
